@@ -68,9 +68,31 @@ UTM_ARGS = ("utm", "utm-n", "utm-s")
 DEG2 = {"eu": 4258, "no": 4258, "au": 4283, "sa": 4674}  # ETRS89, GDA94, SIRGAS 2000
 
 
+# CRSs WITHOUT an EPSG code (kind names end in '*'): PROJ strings no registry entry matches
+# (pyproj's to_epsg() is None for each of them; asserted in slices()); all metre based
+NOEPSG = {
+    "sinu*": "+proj=sinu +lon_0=0 +x_0=0 +y_0=0 +R=6371007.181 +units=m +no_defs",  # MODIS sinusoidal
+    "laea*": "+proj=laea +lat_0=50 +lon_0=12 +x_0=1000000 +y_0=1000000 +ellps=GRS80 +units=m +no_defs",
+    "tmerc*": "+proj=tmerc +lat_0=0 +lon_0=12 +k=0.9996 +x_0=500000 +y_0=0 +ellps=GRS80 +units=m +no_defs",
+    "aea*": "+proj=aea +lat_0=30 +lon_0=10 +lat_1=43 +lat_2=62 +x_0=0 +y_0=0 +ellps=GRS80 +units=m +no_defs",
+}
+
+
 def kind_epsg(kind, loc):
+    """-> CRS id: an EPSG code (int) or, for the kinds without one, the PROJ string"""
+    if kind in NOEPSG:
+        return NOEPSG[kind]
     _, _, utm, ea = LOCS[loc]
     return {"deg": 4326, "merc": 3857, "ea": ea, "utmz": utm, "cea": 6933, "deg2": DEG2.get(loc)}[kind]
+
+
+def crs_spec(cid):
+    """what is handed to the library for a CRS id"""
+    return f"epsg:{cid}" if isinstance(cid, int) else cid
+
+
+def _new_pcrs(cid):
+    return pyproj.CRS.from_epsg(cid) if isinstance(cid, int) else pyproj.CRS.from_user_input(cid)
 
 
 _T = {}
@@ -80,16 +102,17 @@ _PCRS = {}
 def pcrs(epsg):
     c = _PCRS.get(epsg)
     if c is None:
-        c = _PCRS[epsg] = pyproj.CRS.from_epsg(epsg)
+        c = _PCRS[epsg] = _new_pcrs(epsg)
     return c
 
 
 def fresh(src, dst):
-    """pyproj transformer built by the check from fresh EPSG objects (one per process and pair)."""
+    """pyproj transformer built by the check from fresh pyproj CRS objects made from the EPSG code / the same PROJ
+    string (one per process and pair)."""
     k = (src, dst)
     t = _T.get(k)
     if t is None:
-        t = _T[k] = pyproj.Transformer.from_crs(pyproj.CRS.from_epsg(src), pyproj.CRS.from_epsg(dst), always_xy=True)
+        t = _T[k] = pyproj.Transformer.from_crs(_new_pcrs(src), _new_pcrs(dst), always_xy=True)
     return t
 
 
@@ -104,6 +127,8 @@ def unit_class(epsg):
 
 def area_of_use(epsg):
     a = pcrs(epsg).area_of_use
+    if a is None:
+        return None  # custom PROJ strings: no registered area of use
     return (a.west, a.south, a.east, a.north)
 
 
@@ -147,7 +172,7 @@ def make_src(kind, loc, extent, shape, orient):
     s = Src()
     s.key, s.epsg, s.kind, s.orient, s.extent, s.shape, s.p = key, epsg, kind, orient, extent, shape, p
     s.coef = tuple(float(v) for v in tuple(A)[:6])
-    s.gbox = GeoBox(shape, Affine(*s.coef), f"epsg:{epsg}")
+    s.gbox = GeoBox(shape, Affine(*s.coef), crs_spec(epsg))
     s._memo = {}
     if len(_SRC) > 64:
         _SRC.clear()
@@ -240,7 +265,10 @@ def facts(S: Src, dst):
     inside = ll is not None and out["finite"]
     if inside:
         for code in (S.epsg, dst):
-            w, s_, e_, n_ = area_of_use(code)
+            aou = area_of_use(code)
+            if aou is None:
+                continue
+            w, s_, e_, n_ = aou
             if w > e_ or not (w <= ll[0] and ll[2] <= e_ and s_ <= ll[1] and ll[3] <= n_):
                 inside = False
     out["inside"] = inside
@@ -305,8 +333,13 @@ def dst_arg_of(enc, S: Src, loc):
     """-> (value for crs=, expected EPSG or None for the utm spellings, class)"""
     if enc in UTM_ARGS:
         return enc, None, enc
-    code = kind_epsg(enc, loc)
-    return f"epsg:{code}", code, enc
+    kind, _, form = enc.partition("@")
+    code = kind_epsg(kind, loc)
+    if form == "wkt":  # another spelling of the same CRS: its WKT2 text
+        return _new_pcrs(code).to_wkt(), code, enc
+    if form == "pyproj":  # ... a pyproj.CRS object of it
+        return _new_pcrs(code), code, enc
+    return crs_spec(code), code, enc
 
 
 # ---------------------------------------------------------------------------------------------
@@ -347,20 +380,27 @@ def judge(r, S: Src, loc, dst_enc, req, aenc, tight, tol, g, what):
         r.fail(f"result-type:{kk}", f"{what}: returned {g!r}")
         r.outcome = "bad-type"
         return
-    dst = g.crs.epsg
-    if dst is None:
-        r.fail(f"crs:not-epsg:{kk}", f"{what}: result CRS {g.crs} has no EPSG code")
-        r.outcome = "bad-crs"
-        return
-
     # -- which CRS ------------------------------------------------------------------------------
     labels = []
     if want_epsg is not None:
-        if dst != want_epsg:
-            r.fail(f"crs:{kk}", f"{what}: result CRS EPSG:{dst}, requested EPSG:{want_epsg}")
+        if isinstance(want_epsg, int):
+            crs_ok = g.crs.epsg == want_epsg
+        else:
+            # no EPSG code: the result's CRS, read back through its WKT by pyproj, equals pyproj's reading of the
+            # requested PROJ string
+            crs_ok = pyproj.CRS.from_user_input(g.crs.to_wkt()) == pcrs(want_epsg)
+        if not crs_ok:
+            r.fail(f"crs:{kk}", f"{what}: result CRS is {str(g.crs)[:120]!r}, requested {crs_spec(want_epsg)!r}"
+                   + ("; the source GeoBox itself came back" if g is S.gbox else ""))
             r.outcome = "wrong-crs"
             return
+        dst = want_epsg
     else:
+        dst = g.crs.epsg
+        if dst is None:
+            r.fail(f"crs:not-epsg:{kk}", f"{what}: result CRS {g.crs} has no EPSG code")
+            r.outcome = "bad-crs"
+            return
         north, south = 32601 <= dst <= 32660, 32701 <= dst <= 32760
         if not (north or south) or pcrs(dst).utm_zone is None:
             r.fail(f"utm:not-a-utm-zone:{kk}", f"{what}: resolved to EPSG:{dst} which is not a WGS84 UTM zone")
@@ -625,7 +665,10 @@ def run_case(case):
         # all-default request: leave the arguments out altogether
         kw.pop("tol")
         kw.pop("tight")
-    what = (f"{api}(GeoBox({sshape}, Affine{S.coef}, 'epsg:{S.epsg}'), {crs_arg!r}, "
+    crs_txt = repr(crs_arg) if isinstance(crs_arg, (str, int)) else f"pyproj.CRS({crs_spec(want_epsg)!r})"
+    if len(crs_txt) > 200:
+        crs_txt = f"<WKT2 of {crs_spec(want_epsg)!r}>"
+    what = (f"{api}(GeoBox({sshape}, Affine{S.coef}, {crs_spec(S.epsg)!r}), {crs_txt}, "
             + ", ".join(f"{k}={v!r}" for k, v in kw.items()) + ")")
     r = R()
     if api in ("cog", "cog-explicit"):
@@ -803,6 +846,28 @@ def gen_geographic(tier):
                              ("deg", "deg2"), reqs, ANCHOR3 if t else ("default", "center"), TIGHT, (0.01,))
 
 
+NOEPSG_KINDS = ("sinu*", "laea*", "tmerc*", "aea*", "ea")  # four PROJ strings without an EPSG code + EPSG:3035
+
+
+def gen_noepsg(tier):
+    """CRSs without an EPSG code on either or both sides: all ordered pairs (incl. the source's own CRS), and the
+    source's own CRS requested through another spelling (WKT2 text, pyproj.CRS object)"""
+    t = tier == "thorough"
+    reqs = RES3 + (("res", ("s", 1.0)), ("shape", (32, 32)), ("shape", 50)) + ((("res", ("xy", -1.0, 1.0)),) if t else ())
+    locs = ("eu", "no") if t else ("eu",)
+    anchors = ANCHOR3 if t else ("default", "center")
+    tols = TOL2 if t else (0.01,)
+    shapes = ((48, 64),) + (((5, 7),) if t else ())
+    yield from itertools.product(("cog",), ORIENT, NOEPSG_KINDS, locs, EXT2, shapes, NOEPSG_KINDS, reqs, anchors,
+                                 TIGHT, tols)
+    for kind, form in itertools.product(NOEPSG_KINDS, ("wkt", "pyproj")):
+        yield from itertools.product(("cog",), ORIENT, (kind,), locs, EXT2, shapes, (f"{kind}@{form}",), reqs, anchors,
+                                     TIGHT, tols)
+    # the other entry point
+    yield from itertools.product(("to_crs",), ORIENT, NOEPSG_KINDS, ("eu",), ("tile",), ((48, 64),), NOEPSG_KINDS,
+                                 (("res", "auto"), ("res", "same")), ("default",), (False,), (0.01,))
+
+
 def gen_api(tier):
     t = tier == "thorough"
     reqs = (("res", "auto"), ("res", "fit"), ("res", ("s", 2.5)), ("shape", (32, 32)), ("shape", 50))
@@ -823,6 +888,9 @@ def gen_xr(tier):
 
 
 def slices(tier):
+    for k_, s_ in NOEPSG.items():
+        if _new_pcrs(s_).to_epsg() is not None:
+            raise RuntimeError(f"alphabet error: {k_} is matched to EPSG:{_new_pcrs(s_).to_epsg()} by this PROJ database")
     def S(name, gen, run, note):
         return e1.Slice(name, (lambda g=gen: g(tier)), run, note)
 
@@ -848,6 +916,9 @@ def slices(tier):
           "every request kind x tight"),
         S("geographic-pairs", gen_geographic, run_case,
           "EPSG:4326 <-> ETRS89 / GDA94 / SIRGAS 2000 (both degree based, different CRS) x request x anchor x tight"),
+        S("no-epsg", gen_noepsg, run_case,
+          "MODIS sinusoidal, custom LAEA / transverse Mercator / Albers PROJ strings (no EPSG code) and EPSG:3035 in all "
+          "ordered pairs incl. own CRS, own CRS also as WKT2 text / pyproj.CRS object x request x anchor x tight"),
         S("entry-points", gen_api, run_case,
           "GeoBox.to_crs, every argument given explicitly, CRS object and integer EPSG as crs="),
         S("xarray", gen_xr, run_xr, "xr_zeros(src).odc.output_geobox(...)"),
@@ -872,7 +943,7 @@ def main(ctx):
         "source_shapes_max_all_pixels": [64, 64],
         "source_shapes_boundary_only_max": [2000, 1500] if t else [768, 1024],
         "targets": ["EPSG:4326", "EPSG:3857", "EPSG:3035/3577/6933", "EPSG:326xx/327xx", "utm", "utm-n", "utm-s", "own",
-                    "EPSG:4258/4283/4674 (geographic-pairs)"],
+                    "EPSG:4258/4283/4674 (geographic-pairs)"] + list(NOEPSG.values()),
         "resolution": ["auto", "fit", "same"] + [repr(e[1]) for e in (EXPL_T if t else EXPL_Q)],
         "anchor": [repr(a) for a in (ANCHOR_T if t else ANCHOR3)],
         "tight": [False, True],
@@ -908,6 +979,11 @@ def main(ctx):
         "utm: result EPSG in 32601..32660 / 32701..32760; hemisphere as requested for -n/-s; the zone's area of use "
         "overlaps the raster's lon/lat box in longitude and (for plain 'utm') in latitude",
         "xarray slice: the raster is the GeoBox xarray hands back (.odc.geobox); its registration is C09's subject",
+        "no-epsg: CRSs given as PROJ strings that match no EPSG entry; reference transformer from pyproj CRS objects made "
+        "from the same strings; 'result CRS equals the requested one' = pyproj equality of the result's WKT with the string; "
+        "custom strings have no registered area of use: sources sit in central Europe / Scandinavia where sinusoidal, "
+        "LAEA(50N,12E), TM(12E) and Albers(43N,62N) are regular, and only EPSG:3035's area of use is tested; own CRS = the "
+        "same string, its WKT2 text or a pyproj.CRS of it",
         "mirrored-sources: axis-aligned GeoBoxes whose columns run east-west and/or rows south-north are source GeoBoxes "
         "like any other (the quantifier's 'north-up and rotated' is read as 'any orientation'); kept in their own slice, "
         "finding keys carry the orientation (mx / su / r180)",
